@@ -54,11 +54,7 @@ Theorem c07_program_order :
   forall n tr s, run (init n) tr = Some s -> forall t,
   map snd (filter (fun j => Nat.eqb (fst j) t) (pushed s)) = seq 0 (nseq_of s t) /\
   StronglySorted lt (map snd (filter (fun j => Nat.eqb (fst j) t) (called s))).
-Proof.
-  intros n tr s H t. split.
-  - exact (per_submitter_push_order s t (inv_reach n tr s H)).
-  - exact (per_submitter_order s t (inv_reach n tr s H)).
-Qed.
+Proof. intros n tr s H t. exact (program_order s t (inv_reach n tr s H)). Qed.
 Print Assumptions c07_program_order.
 
 (* ---- (b) none lost, none twice ------------------------------------------------------------------------ *)
@@ -77,10 +73,7 @@ Print Assumptions c07_at_most_once.
 Theorem c07_none_lost :
   forall n tr s, run (init n) tr = Some s -> quiescent s = true ->
   Permutation (pushed s) (called s ++ dropped s) /\ NoDup (called s ++ dropped s) /\ jobs s = Idle.
-Proof.
-  intros n tr s H Q. destruct (none_lost s (inv_reach n tr s H) Q) as [P N].
-  destruct (quiescent_idle s (inv_reach n tr s H) Q) as [J _]. auto.
-Qed.
+Proof. intros n tr s H. exact (none_lost_idle s (inv_reach n tr s H)). Qed.
 Print Assumptions c07_none_lost.
 
 (* Jobs are Dropped only if the underlying executor refused (started an activation by Drop); if it never did, every
@@ -88,11 +81,7 @@ Print Assumptions c07_none_lost.
 Theorem c07_drop_only_if_refused :
   forall n tr s, run (init n) tr = Some s -> refused s = 0 ->
   dropped s = [] /\ (quiescent s = true -> called s = pushed s).
-Proof.
-  intros n tr s H R. split.
-  - exact (proj1 (dropped_only_if_refused s (inv_reach n tr s H) R)).
-  - intros Q. exact (proj1 (all_called_in_order_if_never_refused s (inv_reach n tr s H) Q R)).
-Qed.
+Proof. intros n tr s H. exact (drop_only_if_refused s (inv_reach n tr s H)). Qed.
 Print Assumptions c07_drop_only_if_refused.
 
 (* ---- (d) never blocks ---------------------------------------------------------------------------------- *)
